@@ -379,6 +379,9 @@ def b_int(I, args, kw):
         m = I.world.find_method(v.cls, '__int__')
         if m is not None:
             return I.call(BoundMethod(m, v), [], {})
+        h = I.world._abs(v, 'int')
+        if h is not None:
+            return h(I, v)
     raise I.exc('TypeError', 'int() argument must be a string or a number')
 
 
@@ -405,6 +408,9 @@ def b_float(I, args, kw):
         m = I.world.find_method(v.cls, '__float__')
         if m is not None:
             return I.call(BoundMethod(m, v), [], {})
+        h = I.world._abs(v, 'float')
+        if h is not None:
+            return h(I, v)
     raise I.exc('TypeError', 'float() argument must be a string or a number')
 
 
